@@ -43,8 +43,8 @@ ASSUMPTIONS = [
 ]
 
 SCHEMA = {
-    "m": [("api", 2), ("mt", 3), ("fs", 2)],
-    "a": [("style", 8), ("at", 3), ("exit", 3), ("sf", 2), ("ef", 2)],
+    "m": [("api", 2), ("mt", 3), ("fs", 2), ("rf", 2)],
+    "a": [("style", 8), ("at", 3), ("exit", 3), ("sf", 2), ("ef", 2), ("rf", 2)],
 }
 EXIT_MAP = [0, 1, 12]
 
